@@ -44,6 +44,13 @@ Proof.
   cbn [map_opt]. rewrite (filter_item_plain r items H), IH. reflexivity.
 Qed.
 
+Lemma ieval_scal_irrel : forall look s1 s2 e, has_sub e = false -> ieval look s1 e = ieval look s2 e.
+Proof.
+  intros look s1 s2. induction e; cbn [has_sub]; intro H; try discriminate; cbn [ieval]; try reflexivity;
+    try (apply orb_false_iff in H; destruct H as [H1 H2]; rewrite IHe1, IHe2 by assumption; reflexivity);
+    try (rewrite IHe by assumption; reflexivity).
+Qed.
+
 (* a level whose predicate has no subquery, over rows that are plain *)
 Lemma simple_level_correct : forall db items p T,
   forallb plain_col_item items = true -> pform p = true -> has_sub p = false ->
@@ -151,7 +158,7 @@ Proof.
         -- destruct (has_sub c) eqn:Ehs; [discriminate|]. destruct (bare_ok [rw; lw] c) eqn:Ebo; cbn [negb] in Hcl; [|discriminate].
            left. repeat split; auto. subst c. destruct w2 as [p2|]; cbn [pform]; rewrite vform_lift1, Hpf; cbn [vform andb]; [|reflexivity].
            apply andb_true_iff in Hw2. destruct Hw2 as [Hp2 _]. exact Hp2.
-        -- destruct (pure_keys lw rw c) eqn:Epk; [|discriminate]. right. reflexivity.
+        -- destruct (pure_keys lw rw c) eqn:Epk; [|discriminate]. right. exact Epk.
       * (* EXISTS *)
         cbn [subs_wf] in Hsubs.
         destruct sq as [its s2 w2|]; [|discriminate]. destruct its as [|it [|it2 its]]; try discriminate.
@@ -167,7 +174,7 @@ Proof.
         destruct (equi_keys c) as [|k0 ks] eqn:Ek.
         -- destruct (has_sub c) eqn:Ehs; [discriminate|]. destruct (bare_ok [rw; lw] c) eqn:Ebo; cbn [negb] in Hcl; [|discriminate].
            left. repeat split; auto. apply andb_true_iff in Hw2. destruct Hw2 as [Hp2 _]. exact Hp2.
-        -- destruct (pure_keys lw rw c) eqn:Epk; [|discriminate]. right. reflexivity.
+        -- destruct (pure_keys lw rw c) eqn:Epk; [|discriminate]. right. exact Epk.
     + (* not decorrelated: the filter path *)
       destruct (has_inex p) eqn:Hinex; [discriminate|].
       eapply filter_path_correct; eauto.
@@ -187,10 +194,8 @@ Proof.
     unfold filter_path. rewrite (has_sub_scalars p Hsp). cbn [map existsb forallb negb].
     assert (Hf' : filter_opt (fun r => ipass (look_own r) (scal_table db) p) T = Some rows).
     { rewrite <- Hf. clear -Hsp. induction T as [|r T IH]; [reflexivity|]. cbn [filter_opt]. rewrite IH.
-      assert (E : ipass (look_own r) (scal_table db) p = ipass (look_own r) (fun _ => None) p).
-      { unfold ipass. f_equal. f_equal. clear -Hsp. induction p; cbn [has_sub] in Hsp; try discriminate; cbn [ieval]; try reflexivity;
-          try (apply orb_false_iff in Hsp; destruct Hsp as [H1 H2]; rewrite IHp1, IHp2 by assumption; reflexivity);
-          try (rewrite IHp by assumption; reflexivity). }
+      assert (E : ipass (look_own r) (scal_table db) p = ipass (look_own r) (fun _ => None) p)
+        by (unfold ipass; rewrite (ieval_scal_irrel (look_own r) (scal_table db) (fun _ => None) p Hsp); reflexivity).
       rewrite E. reflexivity. }
     rewrite Hf'. rewrite <- (map_opt_ext_filter_item items rows Hitems) in Hm.
     unfold row in *. rewrite Hm. exists t. split; [reflexivity|apply bag_eq_refl].
